@@ -319,4 +319,225 @@ theorem estimate_ok (send delay : Int64) (h : estimateWF send delay = true) :
     rw [toInt_toInt64 _ hlt, e]
   rw [he]
   exact int_fin _ _ _ 3815 hs hn
+/-! ### Int64 arithmetic on values that do not wrap -/
+
+theorem bmod64 (n : Int) (h1 : -9223372036854775808 ≤ n) (h2 : n < 9223372036854775808) :
+    n.bmod (2 ^ 64) = n := by
+  apply Int.bmod_eq_of_le <;> omega
+
+theorem toInt_of_toNat (x : Int64) (n : Nat) (h : x.toUInt64.toNat = n) (hn : n < 9223372036854775808) :
+    x.toInt = n := by
+  rw [int64_toInt, h, if_pos hn]
+
+theorem i64_div (a b : Int64) (ha : 0 ≤ a.toInt) (hb : 0 < b.toInt) : (a / b).toInt = a.toInt / b.toInt := by
+  rw [Int64.toInt_div, Int.tdiv_eq_ediv_of_nonneg ha]
+  have h1 : 0 ≤ a.toInt / b.toInt := Int.ediv_nonneg ha (Int.le_of_lt hb)
+  have h2 : a.toInt / b.toInt ≤ a.toInt := Int.ediv_le_self _ ha
+  have h3 := Int64.toInt_lt a
+  apply bmod64 <;> omega
+
+theorem i64_mod (a b : Int64) (ha : 0 ≤ a.toInt) : (a % b).toInt = a.toInt % b.toInt := by
+  rw [Int64.toInt_mod, Int.tmod_eq_emod_of_nonneg ha]
+
+theorem i64_mul (a b : Int64) (h1 : -9223372036854775808 ≤ a.toInt * b.toInt)
+    (h2 : a.toInt * b.toInt < 9223372036854775808) : (a * b).toInt = a.toInt * b.toInt := by
+  rw [Int64.toInt_mul, bmod64 _ h1 h2]
+
+theorem i64_add (a b : Int64) (h1 : -9223372036854775808 ≤ a.toInt + b.toInt)
+    (h2 : a.toInt + b.toInt < 9223372036854775808) : (a + b).toInt = a.toInt + b.toInt := by
+  rw [Int64.toInt_add, bmod64 _ h1 h2]
+
+theorem i64_neg (a : Int64) (h : -9223372036854775808 < a.toInt) : (-a).toInt = -a.toInt := by
+  rw [Int64.toInt_neg]
+  have := Int64.toInt_lt a
+  apply bmod64 <;> omega
+
+theorem i64_and_mask32 (a : Int64) (h0 : 0 ≤ a.toInt) : (a &&& 0xFFFFFFFF).toInt = a.toInt % 4294967296 := by
+  have hn := toNat_of_nonneg a h0
+  have hl := Int64.toInt_lt a
+  have e : (a &&& 0xFFFFFFFF).toUInt64.toNat = a.toUInt64.toNat % 4294967296 := by
+    rw [Int64.toUInt64_and, UInt64.toNat_and, show ((0xFFFFFFFF : Int64).toUInt64).toNat = 2 ^ 32 - 1 from by decide,
+      Bits.nat_and_mask]
+  rw [toInt_of_toNat _ _ e (by omega)]
+  omega
+
+theorem i64_shl32 (a : Int64) (h0 : 0 ≤ a.toInt) (h1 : a.toInt < 2147483648) :
+    (a <<< 32).toInt = a.toInt * 4294967296 := by
+  have hn := toNat_of_nonneg a h0
+  have e : (a <<< 32).toUInt64.toNat = a.toUInt64.toNat * 4294967296 := by
+    show (a <<< 32).toBitVec.toNat = _
+    rw [Int64.toBitVec_shiftLeft, show ((32 : Int64).toBitVec.smod 64) = 32#64 from by decide]
+    show (a.toBitVec <<< 32).toNat = _
+    rw [BitVec.toNat_shiftLeft, Nat.shiftLeft_eq]
+    have : a.toBitVec.toNat = a.toUInt64.toNat := rfl
+    rw [this]
+    omega
+  rw [toInt_of_toNat _ _ e (by omega)]
+  omega
+
+theorem i64_or (a b : Int64) (q f : Nat) (ha : a.toInt = q * 4294967296) (hb : b.toInt = f)
+    (hq : q < 2147483648) (hf : f < 4294967296) : (a ||| b).toInt = q * 4294967296 + f := by
+  have hna := toNat_of_nonneg a (by omega)
+  have hnb := toNat_of_nonneg b (by omega)
+  have e : (a ||| b).toUInt64.toNat = q * 4294967296 + f := by
+    rw [Int64.toUInt64_or, UInt64.toNat_or, show a.toUInt64.toNat = q * 2 ^ 32 by omega,
+      show b.toUInt64.toNat = f by omega, mul_or _ _ 32 hf]
+  rw [toInt_of_toNat _ _ e (by omega)]
+  omega
+
+/-! the same with the operands' values given as naturals (so that no side goal mentions a cast) -/
+
+theorem i64_div_nat (a b : Int64) (x y : Nat) (ha : a.toInt = x) (hb : b.toInt = y) (hy : 0 < y) :
+    (a / b).toInt = (x / y : Nat) := by
+  rw [i64_div a b (by rw [ha]; exact Int.natCast_nonneg x) (by rw [hb]; exact Int.natCast_pos.mpr hy), ha, hb]; rfl
+
+theorem i64_mod_nat (a b : Int64) (x y : Nat) (ha : a.toInt = x) (hb : b.toInt = y) :
+    (a % b).toInt = (x % y : Nat) := by
+  rw [i64_mod a b (by rw [ha]; exact Int.natCast_nonneg x), ha, hb]; rfl
+
+theorem i64_mul_nat (a b : Int64) (x y : Nat) (ha : a.toInt = x) (hb : b.toInt = y)
+    (h : x * y < 9223372036854775808) : (a * b).toInt = (x * y : Nat) := by
+  have e : a.toInt * b.toInt = ((x * y : Nat) : Int) := by rw [ha, hb, Int.natCast_mul]
+  have h' : ((x * y : Nat) : Int) < 9223372036854775808 := by omega
+  have h0 : (0 : Int) ≤ ((x * y : Nat) : Int) := Int.natCast_nonneg _
+  rw [i64_mul a b (by rw [e]; omega) (by rw [e]; exact h'), e]
+
+theorem i64_add_nat (a b : Int64) (x y : Nat) (ha : a.toInt = x) (hb : b.toInt = y)
+    (h : x + y < 9223372036854775808) : (a + b).toInt = (x + y : Nat) := by
+  rw [i64_add a b (by omega) (by omega), ha, hb]; omega
+
+theorem i64_mask_nat (a : Int64) (x : Nat) (ha : a.toInt = x) : (a &&& 0xFFFFFFFF).toInt = (x % 4294967296 : Nat) := by
+  rw [i64_and_mask32 a (by omega), ha]; omega
+
+theorem i64_shl_nat (a : Int64) (x : Nat) (ha : a.toInt = x) (hx : x < 2147483648) :
+    (a <<< 32).toInt = (x * 4294967296 : Nat) := by
+  rw [i64_shl32 a (by omega) (by omega), ha]; omega
+
+theorem i64_or_nat (a b : Int64) (q f : Nat) (ha : a.toInt = (q * 4294967296 : Nat)) (hb : b.toInt = f)
+    (hq : q < 2147483648) (hf : f < 4294967296) : (a ||| b).toInt = (q * 4294967296 + f : Nat) := by
+  rw [i64_or a b q f (by omega) hb hq hf]; omega
+
+/-! ### the clock offset: duration → Q32.32 → duration -/
+
+/-- Q32.32 image of a non-negative number of nanoseconds -/
+def q32Nat (n : Nat) : Nat := n / 1000000000 * 4294967296 + n % 1000000000 * 4294967296 / 1000000000
+/-- nanoseconds of a non-negative Q32.32 value -/
+def nsNat (o : Nat) : Nat := o / 4294967296 * 1000000000 + o % 4294967296 * 1000000000 / 4294967296
+
+theorem enc_lin (n : Nat) (hr : n < 2147483648 * 1000000000) :
+    n / 1000000000 < 2147483648 ∧ n / 1000000000 % 4294967296 = n / 1000000000 ∧
+    n % 1000000000 * 4294967296 < 9223372036854775808 ∧
+    n % 1000000000 * 4294967296 / 1000000000 < 4294967296 ∧
+    n % 1000000000 * 4294967296 / 1000000000 % 4294967296 = n % 1000000000 * 4294967296 / 1000000000 := by
+  omega
+
+/-- magnitude part of `encodeOffset` -/
+theorem encode_mag (ns : Int64) (n : Nat) (hn : ns.toInt = n) (hr : n < 2147483648 * 1000000000) :
+    ((((ns / 1000000000) &&& 0xFFFFFFFF) <<< 32) |||
+      ((((ns % 1000000000) * 4294967296) / 1000000000) &&& 0xFFFFFFFF)).toInt = q32Nat n := by
+  have c1 : (1000000000 : Int64).toInt = (1000000000 : Nat) := by decide
+  have c2 : (4294967296 : Int64).toInt = (4294967296 : Nat) := by decide
+  obtain ⟨l1, l2, l3, l4, l5⟩ := enc_lin n hr
+  have hq := i64_div_nat _ _ _ _ hn c1 (by decide)
+  have hlsb := i64_mask_nat _ _ hq
+  rw [l2] at hlsb
+  have hshl := i64_shl_nat _ _ hlsb l1
+  have hr' := i64_mod_nat _ _ _ _ hn c1
+  have hmul := i64_mul_nat _ _ _ _ hr' c2 l3
+  have hdiv := i64_div_nat _ _ _ _ hmul c1 (by decide)
+  have hmsb := i64_mask_nat _ _ hdiv
+  rw [l5] at hmsb
+  exact i64_or_nat _ _ _ _ hshl hmsb l1 l4
+
+theorem dec_lin (n : Nat) (hr : n < 9223372036854775808) :
+    n / 4294967296 * 1000000000 < 9223372036854775808 ∧
+    n % 4294967296 * 1000000000 < 9223372036854775808 ∧
+    n / 4294967296 * 1000000000 + n % 4294967296 * 1000000000 / 4294967296 < 9223372036854775808 := by
+  omega
+
+/-- magnitude part of `decodeOffset` -/
+theorem decode_mag (o : Int64) (n : Nat) (ho : o.toInt = n) :
+    ((o / 4294967296) * 1000000000 + ((o &&& 0xFFFFFFFF) * 1000000000) / 4294967296).toInt = nsNat n := by
+  have c1 : (1000000000 : Int64).toInt = (1000000000 : Nat) := by decide
+  have c2 : (4294967296 : Int64).toInt = (4294967296 : Nat) := by decide
+  have hr : n < 9223372036854775808 := by have := Int64.toInt_lt o; omega
+  obtain ⟨l1, l2, l3⟩ := dec_lin n hr
+  have hq := i64_div_nat _ _ _ _ ho c2 (by decide)
+  have hs := i64_mul_nat _ _ _ _ hq c1 l1
+  have hm := i64_mask_nat _ _ ho
+  have hmm := i64_mul_nat _ _ _ _ hm c1 l2
+  have hf := i64_div_nat _ _ _ _ hmm c2 (by decide)
+  exact i64_add_nat _ _ _ _ hs hf l3
+
+theorem i64_zero : (0 : Int64).toInt = 0 := by decide
+
+theorem encode_nonneg (d : Int64) (n : Nat) (hd : d.toInt = n) (hr : n < 2147483648 * 1000000000) :
+    (encodeOffset d).toInt = q32Nat n := by
+  have hneg : ¬ d < 0 := by rw [Int64.lt_iff_toInt_lt, i64_zero]; omega
+  simp only [encodeOffset, hneg, if_false]
+  exact encode_mag d n hd hr
+
+theorem encode_neg (d : Int64) (n : Nat) (hd : d.toInt = -(n : Int)) (hn : 0 < n) (hr : n < 2147483648 * 1000000000) :
+    (encodeOffset d).toInt = -(q32Nat n : Int) := by
+  have hneg : d < 0 := by rw [Int64.lt_iff_toInt_lt, i64_zero]; omega
+  have hd' : (-d).toInt = n := by rw [i64_neg d (by omega), hd]; omega
+  simp only [encodeOffset, hneg, if_true]
+  have hm := encode_mag (-d) n hd' hr
+  rw [i64_neg _ (by rw [hm]; omega), hm]
+
+theorem decode_nonneg (o : Int64) (n : Nat) (ho : o.toInt = n) : (decodeOffset o).toInt = nsNat n := by
+  have hneg : ¬ o < 0 := by rw [Int64.lt_iff_toInt_lt, i64_zero]; omega
+  simp only [decodeOffset, hneg, if_false]
+  exact decode_mag o n ho
+
+theorem decode_neg (o : Int64) (n : Nat) (ho : o.toInt = -(n : Int)) (hn : 0 < n) (hr : n < 9223372036854775808) :
+    (decodeOffset o).toInt = -(nsNat n : Int) := by
+  have hneg : o < 0 := by rw [Int64.lt_iff_toInt_lt, i64_zero]; omega
+  have ho' : (-o).toInt = n := by rw [i64_neg o (by omega), ho]; omega
+  simp only [decodeOffset, hneg, if_true]
+  have hm := decode_mag (-o) n ho'
+  rw [i64_neg _ (by rw [hm]; omega), hm]
+
+/-- duration → Q32.32 → duration loses at most one nanosecond, towards zero -/
+theorem offset_nat (n : Nat) (hr : n < 2147483648 * 1000000000) :
+    q32Nat n < 9223372036854775808 ∧ (0 < n → 0 < q32Nat n) ∧ nsNat (q32Nat n) ≤ n ∧ n ≤ nsNat (q32Nat n) + 1 := by
+  obtain ⟨f1, f2, f3⟩ := frac_roundtrip (n % 1000000000) (Nat.mod_lt _ (by decide))
+  have a := div_bounds (n % 1000000000 * 4294967296) 1000000000 (by decide)
+  have e1 : q32Nat n / 4294967296 = n / 1000000000 := by unfold q32Nat; omega
+  have e2 : q32Nat n % 4294967296 = n % 1000000000 * 4294967296 / 1000000000 := by unfold q32Nat; omega
+  have e3 := Nat.div_add_mod n 1000000000
+  refine ⟨?_, ?_, ?_, ?_⟩
+  · unfold q32Nat; omega
+  · unfold q32Nat; omega
+  · unfold nsNat; rw [e1, e2]; clear e1 e2; omega
+  · unfold nsNat; rw [e1, e2]; clear e1 e2; omega
+
+theorem int_cases (d : Int) : (∃ n : Nat, d = n) ∨ (∃ n : Nat, 0 < n ∧ d = -(n : Int)) := by
+  by_cases h : 0 ≤ d
+  · exact Or.inl ⟨d.toNat, by omega⟩
+  · exact Or.inr ⟨(-d).toNat, by omega, by omega⟩
+
+open Rtp.Pred.C18 in
+/-- |d| < 2^31 s: the recovered duration is `d` or one nanosecond closer to zero -/
+theorem offset_ok (d : Int64) (h : offsetOk d.toInt = true) :
+    (0 ≤ d.toInt → 0 ≤ (decodeOffset (encodeOffset d)).toInt ∧ (decodeOffset (encodeOffset d)).toInt ≤ d.toInt ∧
+        d.toInt - (decodeOffset (encodeOffset d)).toInt ≤ 1) ∧
+    (d.toInt < 0 → (decodeOffset (encodeOffset d)).toInt ≤ 0 ∧ d.toInt ≤ (decodeOffset (encodeOffset d)).toInt ∧
+        (decodeOffset (encodeOffset d)).toInt - d.toInt ≤ 1) := by
+  simp only [offsetOk, Bool.and_eq_true, decide_eq_true_eq,
+    show (2 : Int) ^ 31 * 1000000000 = 2147483648000000000 from by decide] at h
+  obtain ⟨h1, h2⟩ := h
+  rcases int_cases d.toInt with ⟨n, hn⟩ | ⟨n, hpos, hn⟩
+  · have hr : n < 2147483648 * 1000000000 := by omega
+    obtain ⟨o1, _, o3, o4⟩ := offset_nat n hr
+    have he := encode_nonneg d n hn hr
+    have hd := decode_nonneg _ _ he
+    rw [hd, hn]
+    omega
+  · have hr : n < 2147483648 * 1000000000 := by omega
+    obtain ⟨o1, o2, o3, o4⟩ := offset_nat n hr
+    have he := encode_neg d n hn hpos hr
+    have hd := decode_neg _ _ he (o2 hpos) o1
+    rw [hd, hn]
+    omega
 end Rtp.Proofs.Ntp
